@@ -12,7 +12,8 @@ graph guards of Model/Render.v; the parser itself is modelled for C02, not here.
 Streams:
   render   document x {json, yaml block, yaml flow, yaml unquoted} + reorderings (components.schemas, paths random and
            reversed, properties, all, every mapping key-sorted, key order WITHIN path items / operations: `parameters`
-           last, reversed); documents include components.parameters with inline object / array-of-enum schemas shared by
+           last, reversed; key order of `responses` maps reversed); documents include operations with several success codes
+           and different bodies written out of priority order, components.parameters with inline object / array-of-enum schemas shared by
            operations of different paths, and path-level `parameters`; model = Render.emitted_by_tag
            of the parsed document (predicts which operations exist per tag client, in which order)
   keys     small documents with int/str response keys straight into load_ir_from_spec; yaml.safe_load of keys
@@ -91,6 +92,13 @@ def permute_spec(spec: dict, rng, what: str) -> dict:
             if isinstance(item, dict):
                 doc["paths"][path] = re_map({k: (re_map(v) if isinstance(v, dict) and "responses" in v else v) for k, v in item.items()})
         return doc
+    if what == "responses_reversed":   # key order of every `responses` map
+        for item in s["paths"].values():
+            if isinstance(item, dict):
+                for op in item.values():
+                    if isinstance(op, dict) and isinstance(op.get("responses"), dict):
+                        op["responses"] = dict(reversed(list(op["responses"].items())))
+        return s
     if what == "paths_reversed":
         s["paths"] = dict(reversed(list(s["paths"].items())))
         return s
@@ -270,7 +278,8 @@ def run_render_doc(spec: dict, rng, n_perm: int) -> list[dict]:
     for name, (text, isy) in rv.items():
         loaded = yaml.safe_load(text) if isy else json.loads(text)
         variants.append((name, text, isy, loaded, "rendering"))
-    kinds = ["schemas", "paths", "properties", "all", "paths_reversed", "keys_sorted", "item_params_last", "item_reversed"]
+    kinds = ["schemas", "paths", "properties", "all", "paths_reversed", "keys_sorted", "item_params_last", "item_reversed",
+             "responses_reversed"]
     for i in range(n_perm):
         what = kinds[i % len(kinds)]
         p = permute_spec(spec, rng, what)
@@ -583,12 +592,12 @@ def main(chk: Check, replay: dict | None = None) -> int:
     tries = 0
     while len(specs) < n_corpus_render + n_docs and tries < 200:
         tries += 1
-        s = gen_spec(rng, p_declared=1.0, cycles=False, collide=0.0, n_paths=(2, 4), shared_params=0.5, path_level=0.5, sse=0.1, shared_bodies=0.5)
+        s = gen_spec(rng, p_declared=1.0, cycles=False, collide=0.0, n_paths=(2, 4), shared_params=0.5, path_level=0.5, sse=0.1, shared_bodies=0.5, multi2xx=0.4)
         if collision_free(s):
             specs.append(s)
     render_cases: list[dict] = []
     for s in specs:
-        render_cases += run_render_doc(s, rng, 16 if chk.thorough else 8)
+        render_cases += run_render_doc(s, rng, 18 if chk.thorough else 9)
     # every declaration order of small schema families (self-referencing base + allOf-derived schema)
     fam_specs = [c["input"]["spec"] for c in corpus if c["input"].get("kind") == "orders"]
     fam_specs += [gen_family_spec(rng) for _ in range(4 if chk.thorough else 1)]
